@@ -268,11 +268,17 @@ def hand_families():
         add("ext-many", tgt, lambda n: "( 1.2" + " X-a 'b'" * (n // 8) + " !")
         add("ext-values-unterminated", tgt, lambda n: "( 1.2 X-a ( " + "'b' " * (n // 4))
         add("ext-spaces", tgt, lambda n: "( 1.2 X-a" + " " * n + "'b' )")
+        add("name-hyphens-then-fail", tgt, lambda n: "( 1.2 NAME 'a" + "-a" * (n // 2) + "' DESC 'unterminated")
+        add("name-list-hyphens-then-fail", tgt, lambda n: "( 1.2 NAME ( 'a" + "-b" * (n // 2) + "' 'c' ) !")
+        add("name-underscores-dots-then-fail", tgt, lambda n: "( 1.2 NAME 'a" + "_a.b" * (n // 4) + "' !")
         add("ext-name-long", tgt, lambda n: "( 1.2 X-" + "a-" * (n // 2) + " ")
         add("ext-empty-lists", tgt, lambda n: "( 1.2" + " X-a (   )" * (n // 10) + " !")
         add("ext-empty-list-spaces", tgt, lambda n: "( 1.2 X-a (" + " " * n + "!")
         add("name-empty-list-spaces", tgt, lambda n: "( 1.2 NAME (" + " " * n + "!")
         add("ext-lists-two-values", tgt, lambda n: "( 1.2" + " X-a ( 'b'  'c' )" * (n // 17) + " !")
+    add("sup-hyphens-then-fail", "schema-oc", lambda n: "( 1.2 SUP a" + "-a" * (n // 2) + " !")
+    add("must-hyphens-then-fail", "schema-oc", lambda n: "( 1.2 MUST ( a" + "-b" * (n // 2) + " $ c ) !")
+    add("equality-hyphens-then-fail", "schema-at", lambda n: "( 1.2 EQUALITY a" + "-a" * (n // 2) + " !")
     add("must-oidlist-bad-tail", "schema-oc", lambda n: "( 1.2 MUST ( " + "a $ " * (n // 4) + "! )")
     add("must-oidlist-spaces", "schema-oc", lambda n: "( 1.2 MUST ( a" + " " * n + "! )")
     add("sup-descr-long", "schema-oc", lambda n: "( 1.2 SUP " + "a" * n + "!")
@@ -293,6 +299,10 @@ def hand_families():
     add("many-bad-escapes", "filter", lambda n: "(a=" + "\\2" * (n // 2) + ")")
     add("many-colons", "filter", lambda n: "(a" + ":b" * (n // 2) + ":=c)")
     add("spaces-run", "filter", lambda n: "(&" + " " * n + "(a=b))")
+    for wsname, ws in (("tab", "\t"), ("newline", "\n"), ("cr", "\r"), ("vt", "\x0b"), ("fs", "\x1c"), ("nbsp", "\u00a0")):
+        add(f"whitespace-run-{wsname}", "filter", lambda n, ws=ws: "(&" + ws * n + "(a=b))")
+        add(f"whitespace-after-paren-{wsname}", "filter", lambda n, ws=ws: "(" + ws * n + "cn=a)")
+        add(f"whitespace-between-{wsname}", "filter", lambda n, ws=ws: "(&(a=b)" + ws * n + "(c=d))")
     add("value-long", "filter", lambda n: "(a=" + "é" * (n // 2) + ")")
     add("ext-dn-run", "filter", lambda n: "(a" + ":dn" * (n // 3) + ":=c)")
     # receive
@@ -396,7 +406,7 @@ def pump_family(r, kind):
     span = s[i:j]
     mode = r.choice(["truncate", "illegal", "delete-next-delim", "keep"])
     if isinstance(s, str):
-        ill = r.choice(["\x00", "!", "\\", "'", "(", "x", "é", "$"])
+        ill = r.choice(["\x00", "!", "\\", "'", "(", "x", "é", "$", "\t", "\n", "\r", "\x0b", "-", "_", "%"])
     else:
         ill = bytes([r.choice([0x00, 0xFF, 0x30, 0x80])])
 
